@@ -120,6 +120,10 @@ type c20FCase struct {
 	Backend string   `json:"backend"`
 	Prefix  string   `json:"prefix"`
 	Ops     []c20FOp `json:"ops"`
+	// Shared (gometrics): the go-metrics backend is not fresh. 1 = another registry wrapper with the same prefix has
+	// registered and used the same metric names before (a limiter rebuilt on a configuration reload); 2 = the names
+	// already exist in the backend as metrics of the right kind (an operator pre-registered them).
+	Shared int `json:"shared,omitempty"`
 }
 
 func genC20F(t *rapid.T) c20FCase {
@@ -136,6 +140,9 @@ func genC20F(t *rapid.T) c20FCase {
 		return o
 	})
 	c.Ops = rapid.SliceOfN(op, 1, 40).Draw(t, "ops")
+	if c.Backend == "gometrics" {
+		c.Shared = rapid.SampledFrom([]int{0, 0, 1, 2}).Draw(t, "shared")
+	}
 	return c
 }
 
@@ -150,6 +157,35 @@ func runC20F(_ *testing.T, c c20FCase) (out kit.Outcome) {
 		return kit.Outcome{Harness: err.Error()}
 	}
 	defer b.close()
+	if c.Backend == "gometrics" && c.Shared > 0 {
+		var other core.MetricRegistry
+		if c.Shared == 1 {
+			o, err := gometrics.NewGoMetricsMetricRegistry(b.gmReg, "", c.Prefix, time.Hour)
+			if err != nil {
+				return kit.Outcome{Harness: err.Error()}
+			}
+			other = o
+		}
+		for id := 0; id <= 2; id++ {
+			for _, kind := range []string{"distribution", "timing", "count"} {
+				short := fmt.Sprintf("%c%d", kind[0], id)
+				switch {
+				case c.Shared == 1 && kind == "distribution":
+					other.RegisterDistribution(short).AddSample(5)
+				case c.Shared == 1 && kind == "timing":
+					other.RegisterTiming(short).AddSample(5)
+				case c.Shared == 1:
+					other.RegisterCount(short).AddSample(5)
+				case kind == "distribution":
+					gm.GetOrRegisterHistogram(b.prefix+short, b.gmReg, gm.NewUniformSample(64))
+				case kind == "timing":
+					gm.GetOrRegisterTimer(b.prefix+short, b.gmReg)
+				default:
+					gm.GetOrRegisterCounter(b.prefix+short, b.gmReg)
+				}
+			}
+		}
+	}
 	listeners := map[string]core.MetricSampleListener{}
 	kinds := map[string]bool{}
 	adds := 0
@@ -224,7 +260,7 @@ func runC20F(_ *testing.T, c c20FCase) (out kit.Outcome) {
 			}
 		}
 	}
-	return kit.Outcome{NonTrivial: len(kinds) == 3 && adds >= 3, Labels: []string{"backend:" + c.Backend}}
+	return kit.Outcome{NonTrivial: len(kinds) == 3 && adds >= 3, Labels: []string{"backend:" + c.Backend, fmt.Sprintf("shared-backend:%d", c.Shared)}}
 }
 
 type gmSnap struct {
